@@ -182,7 +182,7 @@ def run(R):
               "each threshold), all k / lambda in 1..m, every tie-breaker for k-ARV, square instances for lambda-TSF (optimum by exact Hungarian), "
               "welfare in exact rational arithmetic; the helper's value against the exact ratio and the Lean distortionOf. Non-trivial = m>=3, n>=2.")
     R.assumptions = ["the bound uses the float m^(1/(k+1)) with a 1e-9 relative slack", "every alternative has positive welfare (the helper divides by it)"]
-    items = gen_items(R, 6000 if R.thorough else 220)
+    items = gen_items(R, 6000 if R.thorough else 500)
     run_items(R, items)
     # the theorems C16_karv / C16_tsf assume that the simulated values are what `simulate` returns: check that hypothesis on
     # the real code too (same comparison as C14's check, incl. rule objects reused across elections and integer elicitors)
